@@ -26,6 +26,10 @@ P = {
  "C09": dict(tech="runtime monitor: reflection-enumerated methods invoked on read-only instances, recursive VerifDump before/after diff, writable-twin measurement",
              text="Exploration: every exported method of *Stack/*Condition x argument variants x 12 / 48 richly configured random instances (about 20k calls in quick) plus 4k / 200k random call sequences; "
                   "nothing but the documented exceptions may differ in the raw record, Free must refuse, clearing the flag restores mutability.", ref="2 C09"),
+ "C10": dict(tech="runtime monitor: deterministic interleaving explorer over the lock-point hook (cooperative scheduler, snapshot oracle for 'writes only under the lock'), porcupine linearizability checking of recorded histories, free-running stress under the Go race detector with address-classified reports",
+             text="Exploration: all interleavings (at lock-acquisition granularity) of all 2-worker x 1-op programs over 13 mutators x length 0..3 x LIFO/FIFO x 3 capacity modes, up to 200/400 interleavings of 1.5k / 60k sampled 2-3-worker programs, and 1.5k / 40k free-running 3-8-goroutine histories; "
+                  "every history checked by porcupine against the sequential list model; race reports classified by address class and reading function. The slice-header race of the unlocked prologue is a recorded known finding.", ref="2 C10",
+             note="Trusted base: Go toolchain and race detector, porcupine v1.3.0, the verifPoint hook positions (immediately before Lock, after Lock, after Unlock), VerifDump, the cooperative scheduler and the sequential list model in the harness. Schedules are explored at lock-acquisition granularity only."),
  "C11": dict(tech="runtime monitor under the Go race detector: before/after VerifDump diff and answer stability for every query; parallel readers with isolated-answer oracle; race-log parsing",
              text="Exploration: 1.5k / 100k random trees with every judged query (reflection-enumerated, name-classified) issued twice around an answer-clobbering step, and 60 / 2k trees queried by 8-16 goroutines under -race; "
                   "any race report, answer deviation or snapshot difference is a violation.", ref="2 C11",
